@@ -47,7 +47,7 @@ Q_OPTS = {
     'C17': dict(opts={'caching': (False, True), 'evals': 2, 'ordered': True}, judge=dict(ordered=True)),
     'C03': dict(opts={'caching': (False, True), 'evals': 2}, judge=dict(check_tree=True)),
     'C15': dict(opts={'caching': (False, True), 'evals': 1}, judge=dict(check_tree=True)),
-    'C09': dict(opts={'caching': (False, True), 'evals': 2, 'ambients': (None, 'query', 'rule', 'split:query', 'split:rule')}, judge={}),
+    'C09': dict(opts={'caching': (False, True), 'evals': 2, 'ambients': (None, 'query', 'rule', 'split:query', 'split:rule', 'query+q', 'rule+q')}, judge={}),
 }
 
 
@@ -74,7 +74,10 @@ def run(pid, path, quiet=False):
     from . import props_q, props_q2, props_m, props_r, qcheck, surface
     try:
         if pid in ('C11', 'C12'):
-            res = props_r.rule_impl((case, {'caching': (False, True), 'evals': 2}))
+            opts_r = {'caching': (False, True), 'evals': 2}
+            if pid == 'C11':
+                opts_r['ambients'] = (None, 'query', 'rule', 'query+q', 'rule+q')
+            res = props_r.rule_impl((case, opts_r))
             line = common.run_driver([props_r.rule_sexp(case)])[0]
             props_r.judge_rules(report, [case], [res], [line], findings, pid, lambda c, r: True)
         elif pid == 'C20':
